@@ -1,5 +1,6 @@
 //! eggmon: language-level runtime monitors for egglog (one sub-command per property).
 mod battery;
+mod c01;
 mod c03;
 mod c04;
 mod c05;
@@ -12,6 +13,7 @@ mod c13;
 mod c15;
 mod dump;
 mod exec;
+mod model;
 mod pgen;
 mod out;
 mod rng;
@@ -68,6 +70,7 @@ fn main() {
     }
     run::quiet_panics();
     let report = match argv[1].as_str() {
+        "c01" => c01::run(&a),
         "c03" => c03::run(&a),
         "c04" => c04::run(&a),
         "c05" => c05::run(&a),
@@ -85,6 +88,12 @@ fn main() {
             std::process::exit(2);
         }
     };
+    let mut report = report;
+    for (name, v) in egglog_core_relations::verif::snapshot() {
+        if v > 0 {
+            report.count(&format!("path:{name}"), v);
+        }
+    }
     if a.out.is_empty() {
         println!("{}", serde_json::to_string_pretty(&report.to_json()).unwrap());
     } else {
